@@ -130,6 +130,37 @@ CLAIMED.update({
         design='DESIGN.md section 4, C16'),
 })
 
+CLAIMED.update({
+    'C13': dict(
+        category='other',
+        technique='alias/ownership discipline: freshness of __init__ bindings, template-copy rule, interprocedural write effects with roots (self/param/fresh/class/module) and owner families',
+        text=("Decides the mechanism the statement rests on: every __init__ field of the nine stateful classes is bound to a fresh or caller-owned object; class-level "
+              "mutables are never mutated through an instance; the container templates are only ever copied, by copy routines that return constructor calls; and every "
+              "write of the API closure that reaches an object shared between instances (class-level, module-level, schema-family objects) is one of the enumerated "
+              "idempotent lazy caches with an argument-independent value; plus the deep-copy rules of C14."),
+        note="Field-based, flow-insensitive aliasing. A fresh matcher object's references to schema nodes are treated as shared. ElementTree objects of the schema are read-only by the same rule.",
+        design='DESIGN.md section 4, C13'),
+    'C19': dict(
+        category='other',
+        technique='call-graph reachability of output effects, backward propagation of raise sites minus handlers, schema-derived discharge of unimplemented branches, parameter-to-subscript taint',
+        text=("Decides over the call closure of the public element API: no output effect (print, sys.std*, ET.dump, logging/warnings calls) is reachable nor executed at "
+              "import; every explicit raise of an undocumented class that can escape an entry point is either caught on every call path or discharged by a schema-derived "
+              "argument (particle tags, minOccurs domain, content kinds, parent/child premise), else reported; no entry-point parameter reaches a subscript unchecked; no "
+              "exception object is built and dropped; every eval() site's schema-derived name domain resolves in its module's namespace; the child-shortcut's name "
+              "arithmetic sits behind its membership gate."),
+        note="Does not decide 'never hangs', RecursionError, or implicit exceptions outside the catalogue. Known findings KF-05/06/07/08/09/17.",
+        design='DESIGN.md section 4, C19'),
+    'C20': dict(
+        category='other',
+        technique='shared-write enumeration from interprocedural effect summaries + fill-then-publish shape rule on the CFG (guard, single store, no later mutation through the location or an alias)',
+        text=("A data-race-freedom argument by construction, covering all interleavings: the only state shared between threads that the build/validate/serialise closure "
+              "writes is the enumerated set of lazy caches; each store is guarded by a test of its own location, stores a value that depends on class-level inputs only, "
+              "and the stored object is never edited in place or through an alias afterwards; no process-global switch (stdout redirection, locale, cwd, environment) is "
+              "reachable from those entry points."),
+        note="Trusted base: a single attribute store and list.append are atomic under the GIL; ElementTree reads are thread-safe; each thread works on its own element trees.",
+        design='DESIGN.md section 4, C20'),
+})
+
 NOT_APPLICABLE = {
     'C02': "Acceptance and order preservation for every word of 94 regular languages is the run-time behaviour of a heuristic matcher (first-fit leaf choice, choice commitment, duplication) on a mutable tree; no structural rule bounds the reachable tree states, and running the matcher (concretely or symbolically) is a different technique family. The one structural by-product (an unimplemented branch reachable from a valid word) is reported under C19.",
     'C07': "'Every accepted state has a completion' is an existential claim per reachable matcher state; the reachable states are defined by execution histories, not by the shape of the code. The rejection points that exist are covered as ordering/atomicity obligations of C01/C10, which is not a verdict on C07.",
